@@ -5,6 +5,7 @@ set -e
 cd "$(dirname "$0")"
 export CARGO_NET_OFFLINE=true
 python3 tools/rs2lean.py /repo lean/Fir/Generated
-(cd lean && lake build Fir firmodel)
-(cd harness && cargo build --profile verif-dbg && cargo build --profile verif-rel)
+PROPS=$(python3 -c "import json;print(' '.join('Fir.Props.'+c['property_id'] for c in json.load(open('MANIFEST.json'))['checks']))")
+(cd lean && lake build Fir firmodel $PROPS)
+(cd harness && cargo build --profile verif-dbg)
 echo "setup done"
